@@ -490,6 +490,25 @@ func checkPublished(dir string, cur *x509.Certificate, ca []byte) string {
 	if strings.Join(names, ",") != "ca.pem,cert.pem,key.pem" {
 		return fmt.Sprintf("publication: file set %v", names)
 	}
+	// one Dir writes every version: only the current version directory remains
+	// beside the link (the leftover clause of the directory writer, seen through
+	// the way spiffe uses it)
+	if base, err := os.ReadDir(dir); err == nil {
+		var extra []string
+		versions := 0
+		for _, e := range base {
+			switch {
+			case e.Name() == "identity":
+			case strings.HasSuffix(e.Name(), "-identity"):
+				versions++
+			default:
+				extra = append(extra, e.Name())
+			}
+		}
+		if versions != 1 || len(extra) > 0 {
+			return fmt.Sprintf("publication: %d version directories and %d other entries %v remain beside the link after the last fetch (only the current version directory should)", versions, len(extra), extra)
+		}
+	}
 	kb, _ := os.ReadFile(filepath.Join(target, "key.pem"))
 	cb, _ := os.ReadFile(filepath.Join(target, "cert.pem"))
 	ab, _ := os.ReadFile(filepath.Join(target, "ca.pem"))
